@@ -93,6 +93,18 @@ fn main() {
         }
     }
 
+    if prop == "C17-worker" {
+        util::quiet_panics();
+        let (a, b) = shard.unwrap_or((0, 0));
+        checks::c17::worker(seed, a, b, &out_path.unwrap_or_default());
+        std::process::exit(0);
+    }
+    if prop == "C19-worker" {
+        util::quiet_panics();
+        let (a, b) = shard.unwrap_or((0, 0));
+        checks::c19::worker(seed, a, b, &out_path.unwrap_or_default());
+        std::process::exit(0);
+    }
     let spec = match checks::spec(&prop) {
         Some(s) => s,
         None => {
